@@ -92,7 +92,7 @@ def run_tlc(module, cfg_text, workdir, out_path, timeout, workers=None, extra=No
             m = re.search(r'Invariant (\S+) is violated', line)
             if m:
                 res['violated'].append(m.group(1))
-            m = re.search(r'Action property (\S+) is violated|Temporal properties were violated|property (\S+) is violated', line)
+            m = re.search(r'Action property (\S+) is violated|Temporal properties were violated|property (\S+) (?:is|was) violated', line)
             if m:
                 res['violated'].append(m.group(1) or m.group(2) or 'temporal')
             if line.startswith('Error:') or 'Exception' in line:
